@@ -149,6 +149,10 @@ class Result:
         return cond
 
 
+# checks whose rules are also run over the all-features build of lorawan-device in the thorough tier
+ALL_FEATURES_PIDS = ('C05', 'C06', 'C08', 'C09', 'C10', 'C11', 'C12', 'C20')   # C07 covers that build by itself
+
+
 def load_known():
     p = os.path.join(VERIF, 'known_findings.json')
     if not os.path.exists(p):
@@ -187,6 +191,21 @@ def main(argv):
     try:
         mod = importlib.import_module('lrs.props.' + pid.lower())
         res = mod.run(tier)
+        if tier == 'thorough' and pid in ALL_FEATURES_PIDS and not os.environ.get('LRS_CONFIG_OVERRIDE'):
+            # thorough tier of the device-stack checks: the same rules again over the all-features build of lorawan-device
+            # (serde, certification, multicast: code the default build does not contain)
+            os.environ['LRS_CONFIG_OVERRIDE'] = 'dev-full'
+            try:
+                res2 = mod.run(tier)
+            finally:
+                del os.environ['LRS_CONFIG_OVERRIDE']
+            have = {v['key'] for v in res.violations}
+            for v in res2.violations:
+                if v['key'] not in have:
+                    res.violations.append(dict(v, what=v['what'] + ' [all-features build]'))
+            n1 = len(res.instances)
+            res.instances += [dict(i, instance='%s [all-features build]' % i.get('instance')) for i in res2.instances]
+            res.coverage['all_features_build'] = {'config': 'dev-full', 'cargo_args': CONFIGS['dev-full'], 'rule_instances': len(res2.instances), 'default_build_rule_instances': n1}
     except CheckError as e:
         # fail closed: a check that cannot analyse the tree must not pass
         rp = os.path.join(evdir, 'replay', '%s-0.json' % pid)
